@@ -370,3 +370,194 @@ def mul_by_declared_order(chk, p, pid="C08", rule="R08.3"):
 
 def _is_inf(v):
     return isinstance(v, Obj) and v.cls == "$global" and v.tag == "INFINITY"
+
+
+# ----------------------------------------------------------------------------- group level
+def _group_eval(p, moduli=("n",), extra_hook=None, no_inline=()):
+    """evaluator for the ECDSA-level formulas: points are formal combinations of G, Q, ...;
+    scalars are rational functions; n * P = O for every point (scalar_zero)"""
+    made = {}
+
+    def call_hook(ev, e, ftext, args, kw, st):
+        last = ftext.rsplit(".", 1)[-1]
+        if extra_hook is not None:
+            r = extra_hook(ev, e, last, args, kw, st)
+            if r is not None:
+                return r
+        if last == "PointJacobi" and len(args) >= 4 and all(isinstance(a, Rat) for a in args[1:4]):
+            zero = {v: Poly() for v in ev.coord_zero}
+            cs = tuple(Rat(a.n.subst(zero), a.d.subst(zero)) for a in args[1:4])
+            name = "Pt(%r, %r, %r)" % cs
+            made[name] = cs
+            return LinPt.point(name)
+        if last == "bit_length":
+            return Unknown("bit_length")
+        return None
+
+    ev = FormulaEval(p, moduli=moduli, call_hook=call_hook, inline=lambda f: f.qname not in no_inline)
+    ev.point_order = V("n")
+    ev.scalar_zero = ("n",)
+    ev.coord_zero = ("p",)
+    ev.made_points = made
+    return ev
+
+
+def sign_formula(chk, p, pid="C03", rule="R03.7"):
+    chk.rule(rule, "formula identity (value numbering over Q(e, d, k, x)): every returning path of Private_key.sign yields r = x(k*G) (blinding multiples of n vanish) and s = (e + d*r)/k; "
+                   "every other path raises RSZeroError under r == 0 or s == 0")
+    fq = "ecdsa:Private_key.sign"
+    ev = _group_eval(p, no_inline=("ecdsa:Public_key.__init__",))
+    G = LinPt.point("G")
+    pk = ev.new_obj("Public_key", {"generator": G, "point": LinPt.point("Q")})
+    sk = ev.new_obj("Private_key", {"public_key": pk, "secret_multiplier": V("d")})
+    e, k, d = V("e"), V("k"), V("d")
+    paths = ev.run(fq, [sk, e, k])
+    nret = 0
+    for path in paths:
+        loc = p.loc("ecdsa", path.node) if path.node is not None else fq
+        cond = _fmt_conds(path)
+        key = "%s|%s|sign|%s" % (pid, rule, _path_key(path))
+        if path.kind == "raise":
+            zl = [l for l in path.unit_lits() if l.kind == "zero"]
+            ok = "RSZeroError" in str(path.value) and bool(zl)
+            chk.ob(rule, "sign raises only RSZeroError, under a zero test of r or s [%s]" % cond, ok, loc=loc, key=key, detail="Private_key.sign raises %s on the path [%s]" % (path.value, cond))
+            continue
+        nret += 1
+        v = path.value
+        flds = path.fields(v) if isinstance(v, Obj) else {}
+        r, s = flds.get("r"), flds.get("s")
+        okr = isinstance(r, Rat) and r.is_poly() and len(r.n.t) == 1 and any(r == V(nm) and w == "x" and Q == G.smul(k) for nm, (w, Q) in ev.coords.items())
+        chk.ob(rule, "sign: r is x(k*G) reduced mod n [%s]" % cond, okr, loc=loc, key=key + "|r", detail="Private_key.sign returns r = %r, which is not the x coordinate of k*G (coordinates taken: %s)" % (r, {nm: q for nm, (_w, q) in ev.coords.items()}))
+        oks = isinstance(r, Rat) and isinstance(s, Rat) and s == (e + d * r) * k.inv()
+        chk.ob(rule, "sign: s = (e + d*r) / k mod n [%s]" % cond, oks, loc=loc, key=key + "|s", detail="Private_key.sign returns s = %r, which is not (e + d*r)/k" % (s,))
+        # both zero tests precede the return
+        zs = [l for l in path.unit_lits() if l.kind == "nonzero" and isinstance(l.val, Rat)]
+        okz = isinstance(r, Rat) and isinstance(s, Rat) and any(l.val == r for l in zs) and any(l.val == s or l.val.n == s.n for l in zs)
+        chk.ob(rule, "sign: r != 0 and s != 0 are established before the signature is returned [%s]" % cond, okz, loc=loc, key=key + "|nz", detail="Private_key.sign returns a signature without having excluded r == 0 / s == 0 on the path [%s]" % cond)
+    chk.floor(rule, "returning paths of Private_key.sign", nret, 1)
+
+
+def verify_formula(chk, p, pid="C02", rule="R02.7"):
+    chk.rule(rule, "formula identity: Public_key.verifies answers True exactly on the paths where x((e/s)*G + (r/s)*Q) mod n == r was tested (point combination compared as a formal "
+                   "Q(e, r, s)-linear combination of G and Q), after the range tests and the infinity test")
+    fq = "ecdsa:Public_key.verifies"
+    ev = _group_eval(p, no_inline=("ecdsa:Public_key.__init__",))
+    G, Q = LinPt.point("G"), LinPt.point("Q")
+    pk = ev.new_obj("Public_key", {"generator": G, "point": Q})
+    sig = ev.new_obj("Signature", {"r": V("r"), "s": V("s")})
+    e, r, s = V("e"), V("r"), V("s")
+    want = G.smul(e * s.inv()) + Q.smul(r * s.inv())
+    paths = ev.run(fq, [pk, e, sig])
+    ntrue = 0
+    from sa.formula import BoolV
+    for path in paths:
+        loc = p.loc("ecdsa", path.node) if path.node is not None else fq
+        cond = _fmt_conds(path)
+        key = "%s|%s|verifies|%s" % (pid, rule, _path_key(path))
+        if path.kind == "raise":
+            chk.ob(rule, "verifies does not raise [%s]" % cond, False, loc=loc, key=key, detail="Public_key.verifies raises %s on the path [%s]" % (path.value, cond))
+            continue
+        v = path.value
+        if not isinstance(v, BoolV):
+            chk.ob(rule, "verifies returns a truth value [%s]" % cond, False, loc=loc, key=key, detail="Public_key.verifies returns %r on the path [%s]" % (v, cond))
+            continue
+        if not v.v:
+            continue
+        ntrue += 1
+        zl = [l for l in path.unit_lits() if l.kind == "zero" and isinstance(l.val, Rat)]
+        okx = False
+        for l in zl:
+            for nm, (w, P) in ev.coords.items():
+                if w == "x" and P == want and (l.val == V(nm) - r or l.val == r - V(nm)):
+                    okx = True
+        chk.ob(rule, "verifies -> True only if x(u1*G + u2*Q) mod n == r with u1 = e/s, u2 = r/s [%s]" % cond, okx, loc=loc, key=key + "|eq",
+               detail="Public_key.verifies answers True on the path [%s] without the test x((e/s)G + (r/s)Q) == r (points whose x was taken: %s)" % (cond, [q for _w, q in ev.coords.values()]))
+        okinf = any(l.kind == "ptnonzero" and l.val == want for l in path.unit_lits())
+        chk.ob(rule, "verifies -> True only after the combination was tested against INFINITY [%s]" % cond, okinf, loc=loc, key=key + "|inf",
+               detail="Public_key.verifies answers True on the path [%s] without having excluded the point at infinity" % cond)
+        # the four range tests (r, s against 1 and n - 1) are on the path, all false
+        rng = [l for l in path.unit_lits() if l.kind == "opaque" and not l.pol and ("<" in l.text or ">" in l.text)]
+        chk.ob(rule, "verifies -> True only after the range tests on r and s [%d range literal(s)]" % len(rng), len(rng) >= 4, loc=loc, key=key + "|range",
+               detail="Public_key.verifies answers True on the path [%s] with fewer than four failed range tests on r and s" % cond)
+    chk.floor(rule, "accepting paths of Public_key.verifies", ntrue, 1)
+
+
+def recover_formula(chk, p, pid="C14", rule="R14.4"):
+    chk.rule(rule, "formula identity: recover_public_keys builds R = (r, +-beta) with beta^2 = r^3 + a*r + b (argument of square_root_mod_prime compared as a polynomial) and "
+                   "returns exactly the keys Q = (s/r)*R - (e/r)*G for the two roots, wrapped by Public_key(generator, Q)")
+    fq = "ecdsa:Signature.recover_public_keys"
+    roots = []
+
+    def hook(ev, e, last, args, kw, st):
+        if last == "square_root_mod_prime" and len(args) == 2:
+            roots.append(args[0])
+            return V("beta")
+        return None
+
+    ev = _group_eval(p, moduli=("n", "p"), extra_hook=hook, no_inline=("ecdsa:Public_key.__init__",))
+    cur = ev.construct(p.cls("ellipticcurve:CurveFp"), [V("p"), V("a"), V("b")], {}, _state(ev))
+    cobj, st = [c for c in cur if isinstance(c[0], Obj)][0]
+    ev.base_heap = {k: dict(v) for k, v in st.heap.items()}
+    ev.point_curve = cobj
+    G = LinPt.point("G")
+    sig = ev.new_obj("Signature", {"r": V("r"), "s": V("s")})
+    e, r, s, a, b = V("e"), V("r"), V("s"), V("a"), V("b")
+    paths = ev.run(fq, [sig, e, G])
+    nret = 0
+    for path in paths:
+        loc = p.loc("ecdsa", path.node) if path.node is not None else fq
+        cond = _fmt_conds(path)
+        key = "%s|%s|recover|%s" % (pid, rule, _path_key(path))
+        if path.kind == "raise":
+            continue
+        nret += 1
+        v = path.value
+        ok = isinstance(v, tuple) and len(v) == 2 and all(isinstance(x, Obj) and x.cls == "Public_key" for x in v)
+        got = []
+        if ok:
+            for x in v:
+                ar = path.fields(x).get("$args", ())
+                ok &= len(ar) >= 2 and isinstance(ar[0], LinPt) and ar[0] == G and isinstance(ar[1], LinPt)
+                got.append(ar[1] if len(ar) >= 2 else None)
+        chk.ob(rule, "recover_public_keys returns two Public_key(generator, Q) [%s]" % cond, ok, loc=loc, key=key + "|shape", detail="recover_public_keys returns %r" % (v,))
+        if not ok:
+            continue
+        want = []
+        for y in (V("beta"), -V("beta")):
+            nm = "Pt(%r, %r, %r)" % (r, y, C(1))
+            want.append(LinPt.point(nm).smul(s * r.inv()) - G.smul(e * r.inv()))
+        okq = (got[0] == want[0] and got[1] == want[1]) or (got[0] == want[1] and got[1] == want[0])
+        chk.ob(rule, "the candidates are (s/r)*R - (e/r)*G for R = (r, beta, 1) and (r, -beta, 1) [%s]" % cond, okq, loc=loc, key=key + "|Q",
+               detail="recover_public_keys computes %r and %r instead of r^-1 (s R - e G) on the two points with x = r" % (got[0], got[1]))
+    okroot = bool(roots) and all(isinstance(x, Rat) and x == r * r * r + a * r + b for x in roots)
+    chk.ob(rule, "the root is taken of r^3 + a*r + b", okroot, loc=fq, key="%s|%s|alpha" % (pid, rule), detail="square_root_mod_prime is applied to %s, not to x^3 + a*x + b at x = r" % ([repr(x) for x in roots] or "nothing"))
+    chk.floor(rule, "returning paths of recover_public_keys", nret, 1)
+
+
+def ecdh_formula(chk, p, pid="C05", rule="R05.7"):
+    chk.rule(rule, "formula identity: _get_shared_secret returns x(d * Q_remote) for the local secret multiplier d, after the product was tested against INFINITY; other paths raise")
+    fq = "ecdh:ECDH._get_shared_secret"
+    ev = _group_eval(p, no_inline=())
+    Q = LinPt.point("Q")
+    curve = ev.new_obj("Curve", tag="curve")
+    priv = ev.new_obj("Private_key", {"secret_multiplier": V("d")})
+    sk = ev.new_obj("SigningKey", {"privkey": priv, "curve": curve})
+    pub = ev.new_obj("Public_key", {"point": Q})
+    vk = ev.new_obj("VerifyingKey", {"pubkey": pub, "curve": curve})
+    me = ev.new_obj("ECDH", {"private_key": sk, "public_key": vk, "curve": curve})
+    paths = ev.run(fq, [me, vk])
+    nret = 0
+    for path in paths:
+        loc = p.loc("ecdh", path.node) if path.node is not None else fq
+        cond = _fmt_conds(path)
+        key = "%s|%s|ecdh|%s" % (pid, rule, _path_key(path))
+        if path.kind == "raise":
+            continue
+        nret += 1
+        v = path.value
+        want = Q.smul(V("d"))
+        okv = isinstance(v, Rat) and any(v == V(nm) and w == "x" and P == want for nm, (w, P) in ev.coords.items())
+        chk.ob(rule, "shared secret = x(d * Q) [%s]" % cond, okv, loc=loc, key=key + "|x", detail="_get_shared_secret returns %r, which is not the x coordinate of d * Q_remote" % (v,))
+        okinf = any(l.kind == "ptnonzero" and l.val == want for l in path.unit_lits())
+        chk.ob(rule, "shared secret returned only after d * Q was tested against INFINITY [%s]" % cond, okinf, loc=loc, key=key + "|inf", detail="_get_shared_secret returns without having excluded the point at infinity on the path [%s]" % cond)
+    chk.floor(rule, "returning paths of ECDH._get_shared_secret", nret, 1)
